@@ -184,3 +184,58 @@ Proof.
   intros ->. unfold run_fetching_history. rewrite map_app, app_nth2 by (rewrite map_length; apply le_n).
   rewrite map_length, PeanoNat.Nat.sub_diag. reflexivity.
 Qed.
+
+(* ---------------------------------------------------------------- one report per week label *)
+
+Lemma in_week_labels l w : In w (week_labels l) <-> exists e, In e l /\ fst e = w.
+Proof.
+  induction l as [|a l IH]; cbn [week_labels].
+  - split; [intros [] | intros [e [[] _]]].
+  - split.
+    + intros [<-|H]; [exists a; split; [left|]; reflexivity|].
+      apply filter_In in H as [H _]. apply IH in H as [e [He Hw]]. exists e. split; [right|]; assumption.
+    + intros [e [[<-|He] Hw]]; [left; exact Hw|].
+      destruct (beq w (fst a)) eqn:E; [left; apply beq_eq in E; auto|].
+      right. apply filter_In. split; [apply IH; eauto | rewrite E; reflexivity].
+Qed.
+
+Lemma week_labels_nodup l : NoDup (week_labels l).
+Proof.
+  induction l as [|a l IH]; cbn [week_labels]; constructor.
+  - intro H. apply filter_In in H as [_ H]. rewrite beq_refl in H. discriminate.
+  - apply NoDup_filter. exact IH.
+Qed.
+
+(* every expired file is in the report of its own label - together with every
+   other file of that label, whatever their instants - and in no other *)
+Theorem week_reports_cover gate u cfgver lastweek x l e :
+  In e l ->
+  In (fst e, create_report gate u cfgver (fst e) lastweek x (week_files (fst e) l))
+     (week_reports gate u cfgver lastweek x l) /\
+  In (snd e) (week_files (fst e) l) /\
+  (forall w, In (snd e) (week_files w l) -> exists e', In e' l /\ fst e' = w /\ snd e' = snd e).
+Proof.
+  intro He. split; [|split].
+  - unfold week_reports. apply in_map_iff. exists (fst e). split; [reflexivity|].
+    apply in_week_labels. eauto.
+  - unfold week_files. apply in_map. apply filter_In. rewrite beq_refl. auto.
+  - intros w Hw. unfold week_files in Hw. apply in_map_iff in Hw as [e' [Hs Hf]].
+    apply filter_In in Hf as [Hin Hb]. apply beq_eq in Hb. eauto.
+Qed.
+
+(* exactly one report per label *)
+Theorem week_reports_one_per_label gate u cfgver lastweek x l :
+  map fst (week_reports gate u cfgver lastweek x l) = week_labels l /\ NoDup (week_labels l).
+Proof.
+  split; [|apply week_labels_nodup]. unfold week_reports. rewrite map_map. cbn [fst]. apply map_id.
+Qed.
+
+(* two files of the same label are reported together *)
+Theorem week_files_same_label l e1 e2 :
+  In e1 l -> In e2 l -> fst e1 = fst e2 ->
+  In (snd e1) (week_files (fst e1) l) /\ In (snd e2) (week_files (fst e1) l).
+Proof.
+  intros H1 H2 He. unfold week_files. split; apply in_map; apply filter_In; split; auto.
+  - apply beq_refl.
+  - rewrite He. apply beq_refl.
+Qed.
